@@ -101,6 +101,21 @@ class QuantMixin:
         # facts that DEFINE elements (maps, hypotheses) before facts that evaluate conditions on them (filters)
         for f in [f for f in todo if not f.name.startswith('filter')] + [f for f in todo if f.name.startswith('filter')]:
             self._inst(f, t)
+        self.note_parts(s, t)
+
+    def note_parts(self, s, t) -> None:
+        """an index into a concatenation is an index into one of its parts: instantiate their facts too"""
+        s = smt.simp(s)
+        if z3.is_app(s) and s.decl().kind() == z3.Z3_OP_SEQ_CONCAT:
+            off = z3.IntVal(0)
+            for part in s.children():
+                ti = smt.simp(t - off)
+                if not (z3.is_app(part) and part.decl().kind() == z3.Z3_OP_SEQ_UNIT):
+                    self.note_index(part, ti)
+                    # the element of the whole at t is the element of this part at t - offset (inside the part)
+                    self._add_axiom(z3.Implies(z3.And(ti >= 0, ti < z3.Length(part)),
+                                               smt.elem_at(s, t) == smt.elem_at(part, ti)))
+                off = smt.simp(off + z3.Length(part))
 
     def elem_generic(self, s, t):
         """element read at a GENERIC index (used while summarising a comprehension / predicate once): only
@@ -117,7 +132,19 @@ class QuantMixin:
                 # hypotheses everywhere; structural facts (map / filter) only of this very sequence
                 if f.name in ('all', 'any') or k == k0:
                     self._inst(f, smt.simp(t))
+        self.note_parts_generic(s, t)
         return v
+
+    def note_parts_generic(self, s, t) -> None:
+        s = smt.simp(s)
+        if z3.is_app(s) and s.decl().kind() == z3.Z3_OP_SEQ_CONCAT:
+            off = z3.IntVal(0)
+            for part in s.children():
+                ti = smt.simp(t - off)
+                if not (z3.is_app(part) and part.decl().kind() == z3.Z3_OP_SEQ_UNIT):
+                    pv = self.elem_generic(part, ti)
+                    self._add_axiom(z3.Implies(z3.And(ti >= 0, ti < z3.Length(part)), smt.elem_at(s, t) == pv))
+                off = smt.simp(off + z3.Length(part))
 
     def _inst(self, f: QFact, t) -> None:
         if t.get_id() in f.done:
@@ -336,7 +363,56 @@ class QuantMixin:
         return d
 
     def dictcomp_symbolic(self, e, fr, itv):
-        self.unsupported('dict comprehension over symbolic iterable', e)
+        """{K(x): V(x) for x in S} over a symbolic S (no filter): the keys and the values are the two list comprehensions
+        (so exceptions / obligations of K and V surface as usual); the result is a new dict D with
+            every K(S[i]) is a key of D;   D[k] present  =>  k = K(S[j]) and D[k] = V(S[j]) for some j  (Skolem idx(k))
+        ('last one wins' among equal keys is not modelled: D[k] is the value of SOME element with that key)"""
+        gen = e.generators[0]
+        if gen.ifs:
+            self.unsupported('filtered dict comprehension over symbolic iterable', e)
+        mk = lambda elt: ast.copy_location(ast.ListComp(elt=elt, generators=e.generators), e)   # noqa: E731
+        kl, vl = mk(e.key), mk(e.value)
+        ast.fix_missing_locations(kl)
+        ast.fix_missing_locations(vl)
+        KS = self.get_seq(self.comprehension(kl, fr, 'list'))
+        VS = self.get_seq(self.comprehension(vl, fr, 'list'))
+        n = z3.Length(KS)
+        self._add_axiom(z3.Length(VS) == n)
+        D = self.alloc(builtin_class('dict'))
+        arr = self.fresh('dcomp', smt.DictV)
+        ln = self.fresh('dclen', smt.I)
+        self._add_axiom(z3.And(ln >= 0, ln <= n, z3.Implies(n > 0, ln >= 1)))
+        r = smt.simp(Val.r(D))
+        self.st.dct = z3.Store(self.st.dct, r, arr)
+        self.st.dlen = z3.Store(self.st.dlen, r, ln)
+        idx = z3.Function(f'dc_idx_{self.fresh_counter}', Val, smt.I)
+
+        def member_fact(kk):
+            if getattr(self, '_in_present', False):
+                return
+            self._in_present = True
+            try:
+                member_fact_(kk)
+            finally:
+                self._in_present = False
+
+        def member_fact_(kk):
+            v = z3.Select(arr, kk)
+            j = idx(kk)
+            self._add_axiom(z3.Implies(v != smt.ABSENT, z3.And(j >= 0, j < n, v == smt.elem_at(VS, j),
+                                                                smt.key_of(smt.elem_at(KS, j)) == kk)))
+            self.note_index(VS, smt.simp(j))
+            self.note_index(KS, smt.simp(j))
+        self.base_facts[arr.get_id()] = member_fact
+
+        def inst(i):
+            inr = z3.And(i >= 0, i < n)
+            if z3.is_false(smt.simp(inr)):
+                return
+            self._add_axiom(z3.Implies(inr, z3.Select(arr, smt.key_of(smt.elem_at(KS, i))) != smt.ABSENT))
+        self.add_qfact(KS, 'dictcomp', inst)
+        self.link_seqs(KS, VS)
+        return D
 
     def comp_concrete(self, e, fr) -> Optional[List[Any]]:
         if len(e.generators) != 1:
